@@ -193,3 +193,32 @@ PROPS["C20"] = dict(
 )
 LEVEL_TEXT["C20"] = "Exhaustive enumeration of all small inputs x lender kinds x all consume/rewind histories up to three rounds, compared with the reference item sequence after every rewind."
 TECHNIQUE["C20"] = "bounded-exhaustive enumeration of inputs x operation histories (consume/rewind) against the first-pass reference"
+
+VF_ASSUME = STRICT + ["builders run with no_logging![]; schedules of the real multi-threaded par_solve are not controlled: only schedule-independent oracles are applied to real builds (values, len), the schedule quantifier is decided on the E5 model and bound to the code by replaying the hook event log of every real par_solve run through the model's transition function"]
+PROPS["C07"] = dict(
+    level="model_checking",
+    engine="E1+E5",
+    traces_from_counter=True,
+    parts=[dict(bin="e1_vfunc", opts={"prop": "C07", "traces": 1}, timeout_s={"quick": 900, "thorough": 14400}),
+           dict(bin="e5_proto", shards=4)],
+    rule="E1: case = (type-level configuration, n, run-time configuration): EVERY n in 0..=N with the default configuration; every n in 0..=N1 x every single-axis run-time deviation (offline, low_mem true/false, threads 1/2/3, eps 0.01/0.1, log2_buckets 0/4, seeds 1..3, hint absent/half/2n+7/400000/800000/0, values all-zero/all-MAX/identity, check_dups); all pairs of 14 run-time deviations at n in {0,1,2,3,10,99,100,101(,1000)}; 16 type-level configurations (key types usize/u64/str/String, Box<[u8|u16|u32|u64|usize]>, BitFieldVec<u8|u16|u64|usize>, [u64;1]/[u64;2] x FuseLge3NoShards, FuseLge3FullSigs, Mwhc3Shards, Mwhc3NoShards) for every n in 0..=N2; regime boundaries 50000, 99999..100001, 150000 (2 shards; thorough up to 800001). E5: all reachable states of the par_solve model for workers in 1..=3, shards in 1..=4, every per-shard outcome assignment in {ok, duplicate, unsolvable} (+ empty when shards = 1). non-trivial = n >= 2",
+    alphabet="see rule",
+    bound={"quick": "N=400, N1=160, N2=130", "thorough": "N=6000, N1=1500, N2=600, sizes to 800001"},
+    oracle="E1: Ok(f), f.len() == n, f.get(k_i) == v_i for every pair; termination under a 120 s per-case watchdog; E5: no deadlock, every terminal state consistent (Ok => every shard solved exactly once or empty; a failing shard => Err); binding: every real par_solve event log (thousands per run, including the unsolvable-shard retry path, which small key sets take very often) must be accepted by the model (tau-closure subset construction)",
+    assumptions=VF_ASSUME,
+    mc_note="states/transitions are those of the E5 protocol model; traces_validated_against_impl = number of real par_solve event logs replayed through the model in this run; the E1 part is reported in evaluations/distinct_nontrivial",
+)
+LEVEL_TEXT["C07"] = "Two parts. (1) Exhaustive enumeration of every key-set size in a range x a deviation-bounded lattice of builder configurations on the real builder, each built function queried on every key. (2) Explicit-state model checking of the producer/worker/error-channel protocol of par_solve for up to 3 workers and 4 shards with every outcome assignment (deadlock freedom, terminal consistency), with the model bound to the code by replaying the event log of every real par_solve run of part (1) through the model."
+TECHNIQUE["C07"] = "bounded-exhaustive enumeration of sizes x configuration lattice on the real builder + explicit-state model checking of the par_solve protocol with trace conformance against the implementation"
+PROPS["C08"] = dict(
+    level="exploration",
+    engine="E1",
+    parts=[dict(bin="e1_vfunc", opts={"prop": "C08"}, timeout_s={"quick": 900, "thorough": 14400})],
+    rule="case = (backend, hash width b, n, run-time configuration): every n in 0..=N for the 8-bit BitFieldVec<usize> and Box<[u8]> filters; n in {0,1,3,10,100,101,1000} x b in {1,2,3,7,8,9,15,16,31,32,33,63,64} (BitFieldVec<usize>), b in 1..=8 (BitFieldVec<u8>), Box<[u8|u16|u32|u64]>, four other shard/edge logics, every single-axis run-time deviation; false positives counted exhaustively over a fixed 2^16-element non-member probe set for n = 1000 (b <= 16) and n = 100000 (b in {1,4,8,12} and Box<[u8]>)",
+    alphabet="see rule",
+    bound={"quick": "N=200", "thorough": "N=1500, sizes also 5000, 150000, 400001"},
+    oracle="contains(k) and filter[k] true for every inserted key; len() == n; hash_bits() == b; false-positive count within mean +- (6 sigma + 2) of the binomial(2^16, 2^-b) distribution (deterministic: fixed seeds, fixed probes)",
+    assumptions=VF_ASSUME + ["the false-positive statement is a bounded counting statement over a fixed probe set with a stated tolerance, not a proof about the distribution"],
+)
+LEVEL_TEXT["C08"] = "Exhaustive enumeration of sizes x hash widths x backends x configuration deviations on the real filter builder; membership checked for every inserted key; false positives counted exhaustively over a fixed probe set against a 6-sigma band."
+TECHNIQUE["C08"] = "bounded-exhaustive enumeration of sizes x widths x configurations; exhaustive counting over a fixed probe set for the rate"
